@@ -2,6 +2,7 @@ import ClusterVerif.Spec.C14
 import Driver.Parse
 import Driver.C14Crash
 import Driver.C14Start
+import Driver.C14Snaps
 namespace CV.C14
 open CV.Parse
 
@@ -366,6 +367,7 @@ def answer (ws : List String) : String :=
   | "crash" :: rest => answerCrash rest
   | "pscrash" :: rest => answerPsCrash rest
   | "start" :: rest => answerStart rest
+  | "snaps" :: rest => answerSnaps rest
   | _ => "bad-case unknown-suite"
 
 end CV.C14
